@@ -25,7 +25,9 @@ RULE = (
     "multi-entry systems (with_options derivatives sharing a cache, diamonds, cached wrappers around shared datasets); "
     "state = canonical contents of all caches; transitions = evaluate(entry, o) for every dictionary of the full "
     "product alphabet (depth-1 systems: all ordered pairs, closure to a fixpoint when it closes under the state cap; "
-    "depth-2 systems: all o1, then every single-key perturbation o2 of o1); non-trivial = a system in which at least "
+    "depth-2 systems: all o1, then every single-key perturbation o2 of o1); the caller's dictionary is ONE object "
+    "updated in place between evaluations; (term, dictionary) pairs that hit the two recorded keys() findings are not "
+    "evaluated; non-trivial = a system in which at least "
     "two dictionaries give different outcomes and at least one transition is served from a cache"
 )
 ASSUMPTIONS = [
